@@ -133,6 +133,10 @@ def check_alphabet(chk) -> None:
     # FCFS availability table as long as the alphabet
     av = astq.single_def(fcfs.node, "available")
     n_av = None
+    if av is not None:
+        _st = [st for st, v in astq.assignments(fcfs.node, "available") if v is av]
+        if _st:
+            av = Inliner(fcfs.node).inline(av, _st[0], stop=("regions",))
     if isinstance(av, ast.ListComp) and len(av.generators) == 1:
         try:
             n_av = len(Folder(repo, MOD).fold(av.generators[0].iter))
@@ -564,6 +568,27 @@ def check_regions(chk) -> None:
                 expected="(stem[0].index_, stem[0].pair, len(stem)) for stem in self.__stems_entries",
                 found=norm(comp),
             )
+        # other ways a function gets its regions: the cached property, or a loop that appends the triple
+        if not comps:
+            alias = [v for st, v in astq.assignments(fi.node, "regions") if v is not None and norm(v).startswith("self.") and norm(v).endswith("__regions")]
+            apps = [c for c in astq.calls(fi.node, "append") if astq.dotted(c.func.value) == "regions" and c.args and isinstance(c.args[0], ast.Tuple) and len(c.args[0].elts) == 3]
+            if alias and q != "BpSeq.__regions":
+                n += 1
+                chk.ok("region-triple", fi.where, "regions are the verified self.__regions")
+            elif len(apps) == 1:
+                fmx = FlowMap(fi.node)
+                lps = fmx.of(fmx.stmt_of(apps[0])).loops
+                if len(lps) == 1 and isinstance(lps[0].target, ast.Name) and (astq.dotted(lps[0].iter) or "").endswith("__stems_entries") and not fmx.guards_within(fmx.stmt_of(apps[0]), lps[0]) and not any(isinstance(x, (ast.Break, ast.Continue)) for x in ast.walk(lps[0])):
+                    n += 1
+                    env = SymEnv(lps[0])
+                    stem = ("stem",)
+                    env.over[lps[0].target.id] = Aff.of(stem)
+                    ok, v = region_triple_ok(env, apps[0].args[0], stem)
+                    chk.expect(ok, "region-triple", fi.site(apps[0]), "region = (stem[0].index_, stem[0].pair, len(stem)) appended for every stem", f"region triple `{norm(apps[0].args[0])}` does not describe its stem (first 5' index, its partner, length)", K(fi, "region-triple"), found=norm(apps[0].args[0]))
+                else:
+                    chk.error("region-triple", fi.where, "regions are appended outside a plain loop over the stems")
+            else:
+                chk.error("region-triple", fi.where, "construction of the region list not recognised")
     chk.floor("region-triple", 2)
 
 
